@@ -1254,7 +1254,11 @@ std::ostream& expression_t::print(std::ostream& os, bool old) const
     case MIN:
     case MAX:
     case FRACTION:
-        embrace_strict(os, old, get(0), precedence);
+        if (precedence == get_precedence(ASSIGN))
+            // assignments associate to the right, and an inline-if to their left would swallow them
+            embrace(os, old, get(0), get_precedence(INLINE_IF));
+        else
+            embrace_strict(os, old, get(0), precedence);
         switch (data->kind) {
         case FRACTION: os << " : "; break;
         case PLUS: os << " + "; break;
